@@ -73,7 +73,7 @@ EPOCH = {
     "epoch_ms": [("n", 10), ("ms", 3)],
     "epoch_us": [("n", 10), ("ms", 3), ("us", 3)],
 }
-EPOCH_TZ = ["UTC", "+0530", "-0800", "Etc/GMT-14", "Etc/GMT+5", "UTC-03:30", "+1245", "PST", "local"]
+EPOCH_TZ = ["UTC", "+0530", "-0800", "Etc/GMT-14", "Etc/GMT+5", "UTC-03:30", "+1245", "PST", "local", "-0930", "-02:30", "GMT-0430"]
 
 
 def _written(parts):
@@ -221,7 +221,8 @@ def tasks(tier, seed):
         add("auto:" + named[0], "h_form", {"form": named[0], "languages": None}, 200)
     eps = [("epoch_s", "UTC", False), ("epoch_ms", "+0530", False), ("epoch_us", "-0800", False),
            ("epoch_us", "UTC", True), ("epoch_ms", "local", False),
-           ("epoch_s", ["Etc/GMT+5", "Etc/GMT-14"][seed % 2], False)] if quick else \
+           ("epoch_s", ["Etc/GMT+5", "Etc/GMT-14"][seed % 2], False),
+           ("epoch_ms", ["UTC-03:30", "-0930", "-02:30", "GMT-0430"][seed % 4], False)] if quick else \
         [(f, tz, neg) for f in EPOCH for tz in EPOCH_TZ for neg in (False, True)]
     for f, tz, neg in eps:
         add("epoch:%s:%s:%s" % (f, tz, "neg" if neg else "pos"), "h_epoch", {"form": f, "tz": tz, "negative": neg}, 200)
